@@ -103,7 +103,7 @@ class ReplayChooser:
 
 
 class Scheduler:
-    def __init__(self, chooser, whitelist, wait_timeout=60.0, max_points=200000):
+    def __init__(self, chooser, whitelist, wait_timeout=300.0, max_points=200000):
         self.chooser = chooser
         self.whitelist = whitelist  # callable (basename, funcname) -> bool
         self.wait_timeout = wait_timeout
@@ -196,7 +196,7 @@ class Scheduler:
         first = self.chooser.choose(None, r, 0)
         self.trace.append(first)
         self.sems[first].release()
-        if not self.main_sem.acquire(timeout=self.wait_timeout * 4):
+        if not self.main_sem.acquire(timeout=self.wait_timeout * 2.5):
             raise HarnessError("scheduler: run did not finish (deadlock or a thread stuck outside the baton)")
         for t in threads:
             t.join(timeout=10)
